@@ -109,3 +109,103 @@ PLAN['C18'] = {
     'quick': lambda seed: runs('h_grid', ['trimesh'], 'asan', 8, 250),
     'thorough': lambda seed: runs('h_grid', ['trimesh'], 'asan', 16, 6000),
 }
+
+
+# ------------------------------------------------------------------------------------------------ flow harness (h_flow)
+FLOW_GEN = ('Random short histories (1-3 updates on one graph object) over random grids (profile, raster rook/queen/'
+            'bishop, cache-less queen raster, triangular mesh; all admissible border-status mixes incl. looped and '
+            'size-2 looped axes, per-node status overrides, anisotropic spacing), elevation classes {uniform, ties, '
+            'flat (incl. +-0, negative), plane+pits, nested bowls, tiny/subnormal, large with 1-ulp differences, '
+            'patterns, ramps, plateau steps}, masks {none, Bernoulli 0.05/0.3, walls, rings}, base levels {default, '
+            'single node, random subset, partial border}; mask / base levels / operator parameters change between '
+            'updates. distinct = distinct hashes of (grid, operators, inputs of every update). ')
+
+
+def flow_plan(prop, quick_cases, thorough_cases, rule, floor, assumptions=None, kinds=None):
+    kinds = kinds or FLOW6
+    return {
+        'rule': FLOW_GEN + rule,
+        'floor': floor,
+        'assumptions': assumptions or [],
+        'quick': lambda seed: runs('h_flow', kinds, 'asan', 2, quick_cases * 10),
+        'thorough': lambda seed: runs('h_flow', kinds, 'asan', 3, 8000),
+    }
+
+
+PLAN['C01'] = flow_plan(
+    'C01', 250, 12000,
+    'Operator sequences with a sink resolver: [pflood, single|multi], [single, mst(kruskal|boruvka, basic|carve)] '
+    'optionally followed by a single or multiple direction router, snapshots interleaved. Oracle: base-level/masked '
+    'nodes are their own single receiver; every receiver edge strictly decreases the returned elevation; no unmasked '
+    'node connected to an unmasked base level is its own receiver; bounded receiver walk ends at a base level. '
+    'Non-trivial: the input of some update had a pit that is not a base level.',
+    ['c01.states_with_input_pits', 'c01.edges_checked', 'c01.paths_followed', 'seq.pflood+single', 'seq.pflood+multi',
+     'seq.mst-carve+none', 'seq.mst-basic+none'],
+    ['masked base levels are not generated (the statement does not define them)',
+     'every case has at least one unmasked base level (documented requirement of routing)'])
+
+PLAN['C02'] = flow_plan(
+    'C02', 250, 12000,
+    'Same sequences as C01. Oracle: independent minimax (Dijkstra with max) spill level L over the reference adjacency; '
+    'returned elevation >= input everywhere, bit-identical at base levels and masked nodes, elsewhere '
+    '0 <= ord(h) - ord(L) <= N (one floating-point increment per node). Non-trivial: some node had to be raised (L > z).',
+    ['c02.states_with_filling', 'c02.nodes_compared', 'seq.pflood+single', 'seq.mst-carve+none', 'seq.mst-basic+none'],
+    ['nodes of unmasked components without a base level are skipped and counted (outside the quantifier)'])
+
+PLAN['C03'] = flow_plan(
+    'C03', 250, 12000,
+    'Any valid operator sequence (single, multiple, with/without resolvers and snapshots, single after multiple). '
+    'Sources: scalar, uniform array, random positive, mixed sign, one-hot. Oracle: recurrence recomputed from the public '
+    'tables in Kahn order in long double (tolerance 1e-12 x sum of |contributions|); conservation at terminal nodes; '
+    'non-negative source >= local contribution exactly; the 4 overloads bit-identical (in-place into a dirty array). '
+    'Non-trivial: graph has a node with >= 2 donors or >= 2 receivers.',
+    ['c03.nodes_compared', 'c03.conservation_checked', 'c03.scalar_overloads_compared', 'c03.source.mixed_sign',
+     'final.multi', 'final.single'])
+
+PLAN['C04'] = flow_plan(
+    'C04', 250, 12000,
+    'Sequences whose last graph-updating operator is a single-direction router (sequential or 2-4 threads): [single], '
+    '[pflood, single], [single, mst, single], [multi, single], [single, single]. Oracle against the returned elevation: '
+    'self receiver iff no unmasked neighbour strictly lower, else an adjacent unmasked strictly lower neighbour attaining '
+    'the maximal slope (same double arithmetic, any maximiser), stored distance = grid distance (2 ulp), weight 1, count 1. '
+    'Non-trivial: a node with >= 2 strictly lower neighbours of different slope.',
+    ['c04.nodes_checked', 'field.tiny', 'field.flat'])
+
+PLAN['C05'] = flow_plan(
+    'C05', 250, 12000,
+    'Sequences whose last operator is the multiple-direction router with exponent p in {0,0.5,1,1.1,2,5,10} (changed '
+    'between updates through the shared operator): [multi], [pflood, multi], [single, mst, multi], [single, multi]. '
+    'Oracle: receivers = multiset of strictly lower unmasked neighbours with distances; weights finite in [0,1], sum 1 '
+    '(1e-12); proportional to slope^p in long double (1e-10) when every slope^p is a normal double, otherwise '
+    'monotonic. Non-trivial: a node with >= 2 receivers.',
+    ['c05.nodes_checked', 'c05.proportionality_checked_nodes', 'c05.ill_conditioned_nodes', 'param_change.slope_exp',
+     'field.tiny', 'field.flat'])
+
+PLAN['C06'] = flow_plan(
+    'C06', 250, 12000,
+    'Any valid operator sequence, checked after every update. Oracle: counts within table widths, donors = inverse of '
+    'receivers for distinct nodes with multiplicity, dfs order a permutation with every node after its receivers, bfs '
+    'order a permutation with strictly increasing level bounds 0..N and every receiver in a strictly earlier level. '
+    'Non-trivial: >= 3 breadth-first levels and a node with >= 2 donors.',
+    ['c06.edges_checked', 'c06.states_checked', 'final.multi', 'final.single', 'seq.mst-carve+none', 'seq.mst-basic+none'])
+
+PLAN['C15'] = {
+    'rule': FLOW_GEN + 'Single-router graph, basins(), then one Kruskal and one Boruvka basin_graph object reused over 1-4 '
+            'updates (ties and patterns favoured: equal-weight edges, hub basins). Oracle: independent edge set (lowest pass '
+            'per adjacent basin pair with an inner basin; root links), pass nodes adjacent / in the right basins / achieving the '
+            'pass elevation, tree acyclic and spanning exactly the basins reachable from the root with one fewer edge, sorted '
+            'weight multiset equal to the harness Kruskal MST, Kruskal = Boruvka multisets, orientation by BFS depth. '
+            'Non-trivial: >= 3 reachable basins and a cycle in the basin graph.',
+    'floor': ['c15.trees_checked', 'c15.edges_checked', 'c15.graphs_with_degree_above_16', 'c15.graphs_with_unreachable_basins'],
+    'assumptions': ['all MSTs of a graph share the sorted weight multiset (used instead of floating-point sums)'],
+    'quick': lambda seed: runs('h_flow', FLOW6, 'asan', 2, 2000),
+    'thorough': lambda seed: runs('h_flow', FLOW6, 'asan', 3, 6000),
+}
+
+PLAN['C19'] = flow_plan(
+    'C19', 250, 12000,
+    'Sequences ending in a single-direction state (router only, pflood+router, spanning-tree resolver variants, single after '
+    'multiple), masks, basins() called once or twice after every update. Oracle: label = label of the receiver, outlets '
+    'numbered 0.. in bottom-up (dfs) order, masked nodes carry the maximum label, label count = unmasked outlets = '
+    'impl().outlets(), pits() = outlets that are not base levels. Non-trivial: >= 2 basins.',
+    ['c19.delineations_checked'])
